@@ -198,7 +198,7 @@ func runC01(c *fw.Ctx) {
 			seenProd[h] = true
 			try := func(o bt.Op) {
 				item++
-				if depth == 0 && !c.Mine(item) {
+				if depth <= btShardDepth && !c.Mine(item) {
 					return // the root state is visited by every shard: split its product
 				}
 				ops := append(append([]bt.Op(nil), base...), o)
@@ -218,7 +218,9 @@ func runC01(c *fw.Ctx) {
 					})
 					return
 				}
-				c.State(hh)
+				if cl != "ambiguous" {
+					c.State(hh)
+				}
 			}
 			for _, k := range catKeys {
 				for _, m := range cat {
